@@ -1,5 +1,5 @@
 (* C08 — property theorems only. *)
-From Yv Require Import Common.Base C08.Model C08.Spec C08.Proofs.
+From Yv Require Import Common.Base C08.Model C08.Spec C08.Proofs C08.Fds C08.FdProofs C08.FdChild C08.EnvModel C08.EnvProofs.
 
 (* A system call issued by any process changes no field of another process's
    record: after any sequence of calls, none issued by [p], [p]'s descriptors,
@@ -51,3 +51,69 @@ Proof. exact entry_ok_model. Qed.
 
 Theorem oracle_accepts_unchanged_parent : forall s, no_leak s s = true.
 Proof. exact no_leak_refl. Qed.
+
+(* process.rs min_unused_fd as modelled (fuel = number of open descriptors): the fuel never
+   runs out — the result is free, at or above the minimum, and every descriptor below it is open *)
+Theorem min_unused_spec : forall (from : N) (t : fdt), lookup (min_unused from t) t = None /\ (from <= min_unused from t)%N /\ (forall j, (from <= j)%N -> (j < min_unused from t)%N -> has j t = true).
+Proof. intros from t. split; [apply min_unused_is_free|]. split; [apply min_unused_is_ge|]. apply min_unused_is_least. Qed.
+
+(* N-command pipeline, parent side: for every number of stages, every descriptor limit, every
+   schedule of pipe()/fork failures and every initial table, the parent's table after the
+   pipeline (completed or abandoned) is the table before it: nothing leaked, nothing closed *)
+Theorem pipeline_parent_table_restored : forall (lim : option N) (faults : list (pfault * bool)) (n : nat) (t0 : fdt) (o0 : N) acc e st, pipeline lim faults n t0 o0 = (acc, e, st) -> forall fd, lookup fd (tab st) = lookup fd t0.
+Proof. intros lim faults n t0 o0 acc e st H. exact (proj1 (pipeline_restores _ _ _ _ _ _ _ _ H)). Qed.
+
+(* every descriptor a system call of the pipeline opened or closed in the parent was free in
+   the original table, hence at or above its first free slot: the user's descriptors are never touched *)
+Theorem pipeline_touches_only_free_descriptors : forall (lim : option N) (faults : list (pfault * bool)) (n : nat) (t0 : fdt) (o0 : N) acc e st, pipeline lim faults n t0 o0 = (acc, e, st) -> Forall (fun fd => lookup fd t0 = None /\ (min_unused 0 t0 <= fd)%N) (tlog st).
+Proof. intros lim faults n t0 o0 acc e st H. exact (proj2 (pipeline_restores _ _ _ _ _ _ _ _ H)). Qed.
+
+(* every child the parent started (its initial table = the parent's table at the fork):
+   move_to_stdin_stdout neither fails nor hits an assertion, and leaves the ORIGINAL table of the
+   parent with descriptor 0 = the previous reader and descriptor 1 = the next writer *)
+Theorem pipeline_child_entry_table : forall (lim : option N) (faults : list (pfault * bool)) (n : nat) (t0 : fdt) (o0 : N) acc e st, pipeline lim faults n t0 o0 = (acc, e, st) -> Forall (fun c => exists t', move_to_stdin_stdout lim (fst c) (snd c) = COk t' /\ forall fd, lookup fd t' = child_view t0 (fst c) (snd c) fd) acc.
+Proof. intros lim faults n t0 o0 acc e st H. exact (pipeline_children_ok _ _ _ _ _ _ _ _ H). Qed.
+
+(* ... so no descriptor other than 0 and 1 refers to an open file description created by the
+   pipeline: no other pipe end stays open in a child, every reader sees EOF *)
+Theorem pipeline_child_no_other_pipe_end : forall (lim : option N) (faults : list (pfault * bool)) (n : nat) (t0 : fdt) (o0 : N) acc e st, (forall fd o c, lookup fd t0 = Some (o, c) -> (o < o0)%N) -> pipeline lim faults n t0 o0 = (acc, e, st) -> Forall (fun ch => forall t', move_to_stdin_stdout lim (fst ch) (snd ch) = COk t' -> forall fd o c, lookup fd t' = Some (o, c) -> (o0 <= o)%N -> fd = 0%N \/ fd = 1%N) acc.
+Proof. intros lim faults n t0 o0 acc e st Hold H. exact (pipeline_no_other_end _ _ _ _ _ _ _ _ Hold H). Qed.
+
+(* which stage gets which rewiring: child i (from 0) has a previous reader iff it is not the
+   first and a next pipe iff it is not the last; a completed pipeline started all n stages *)
+Theorem pipeline_stage_rewiring : forall (lim : option N) (faults : list (pfault * bool)) (n : nat) (t0 : fdt) (o0 : N) acc e st, pipeline lim faults n t0 o0 = (acc, e, st) -> (forall i c, nth_error acc i = Some c -> is_some (rp (snd c)) = negb (Nat.eqb i 0) /\ is_some (nx (snd c)) = negb (Nat.eqb (S i) n)) /\ (e = Completed -> length acc = n).
+Proof. intros lim faults n t0 o0 acc e st H. exact (pipeline_shape _ _ _ _ _ _ _ _ H). Qed.
+
+(* command substitution (pipe, fork, the parent closes the writer, reads, closes the reader),
+   with pipe() or the fork failing: parent restored, only free descriptors touched, the child
+   sees the original table with descriptor 1 = the writer *)
+Theorem cmdsubst_descriptor_discipline : forall (lim : option N) (pf : pfault) (ff : bool) (t0 : fdt) (o0 : N) acc e st, cmdsubst lim pf ff t0 o0 = (acc, e, st) -> (forall fd, lookup fd (tab st) = lookup fd t0) /\ Forall (fun fd => lookup fd t0 = None /\ (min_unused 0 t0 <= fd)%N) (tlog st) /\ Forall (fun c => exists t', cmdsubst_child lim (fst c) (snd c) = COk t' /\ forall fd, lookup fd t' = child_view t0 (fst c) (snd c) fd) acc.
+Proof. intros lim pf ff t0 o0 acc e st H. destruct (cmdsubst_restores _ _ _ _ _ _ _ _ H) as (A & B & _). split; [exact A|]. split; [exact B|]. exact (cmdsubst_children_ok _ _ _ _ _ _ _ _ H). Qed.
+
+(* Env-level entry view (Config::start child prologue), nested: whatever an outer subshell set
+   (any mutators, traps included), entering an inner subshell resets again — no command trap, no
+   owned job; the job list still names the original jobs, $! is kept, two Subshell frames *)
+Theorem nested_subshell_entry_resets_again : forall (p : env) (k1 : kind) (jc1 : bool) (ms : list mutator) (k2 : kind) (jc2 : bool), let inner := enter_subshell (run_muts (enter_subshell p k1 jc1) ms) k2 jc2 in Forall (fun t => t_action t <> ACommand) (s_traps (e_snap inner)) /\ Forall (fun j => j_owned j = false) (e_jobs inner) /\ map j_pid (e_jobs inner) = map j_pid (e_jobs p) /\ e_last_async inner = e_last_async p /\ e_stack inner = e_stack p ++ [FSubshell; FSubshell].
+Proof. exact nested_entry_resets. Qed.
+
+(* entering twice gives the traps of entering once *)
+Theorem subshell_entry_traps_idempotent : forall (e : env) (k : kind) (jc : bool), s_traps (e_snap (enter_subshell (enter_subshell e k jc) k jc)) = s_traps (e_snap (enter_subshell e k jc)).
+Proof. exact entry_traps_idempotent. Qed.
+
+(* everything the property does not list as reset is copied unchanged *)
+Theorem subshell_entry_copies_everything_else : forall (e : env) (k : kind) (jc : bool), let c := enter_subshell e k jc in s_vars (e_snap c) = s_vars (e_snap e) /\ s_pos (e_snap c) = s_pos (e_snap e) /\ s_funs (e_snap c) = s_funs (e_snap e) /\ s_aliases (e_snap c) = s_aliases (e_snap e) /\ s_opts (e_snap c) = s_opts (e_snap e) /\ s_cwd (e_snap c) = s_cwd (e_snap e) /\ s_umask (e_snap c) = s_umask (e_snap e) /\ s_fds (e_snap c) = s_fds (e_snap e) /\ e_last_async c = e_last_async e /\ e_exit c = e_exit e /\ map j_pid (e_jobs c) = map j_pid (e_jobs e) /\ s_traps (e_snap c) = map (enter_trap (trap_kind k jc)) (s_traps (e_snap e)).
+Proof. exact entry_copies_env. Qed.
+
+(* frame property over a tree of processes: any sequence of mutators (assignment, positional
+   parameters, function, alias, option, cd, umask, trap, redirection, close, exit) and further
+   subshell starts by processes below the root leaves the root's environment what it was *)
+Theorem process_tree_frame : forall (evs : list event) (t : ptree), Forall (fun ev => ev_path ev <> []) evs -> root (fold_left step evs t) = root t.
+Proof. exact tree_frame. Qed.
+
+(* the two-process instance, with non-vacuity: the child did run all the mutators *)
+Theorem two_process_parent_untouched : forall (p : env) (k : kind) (jc : bool) (ms : list mutator), root (fold_left step (map (EMut [0%nat]) ms) (step (PNode p []) (ESpawn [] k jc))) = p /\ fold_left step (map (EMut [0%nat]) ms) (step (PNode p []) (ESpawn [] k jc)) = PNode p [PNode (run_muts (enter_subshell p k jc) ms) []].
+Proof. intros p k jc ms. split; [apply two_process_frame | apply two_process_child_runs]. Qed.
+
+(* oracle soundness for jobs / $! / frames *)
+Theorem oracle_accepts_model_entry_jobs_frames : forall (e : env) (k : kind) (jc : bool), xentry_jobs_ok (xview_of e) (xview_of (enter_subshell e k jc)) = true /\ xentry_last_ok (xview_of e) (xview_of (enter_subshell e k jc)) = true /\ xentry_stack_ok (xview_of e) (xview_of (enter_subshell e k jc)) = true.
+Proof. exact xentry_oracle_accepts_model. Qed.
